@@ -17,6 +17,9 @@ def run(ctx):
         {"scens": wcat.dag_scenarios(3, rotations=(0,), with_failures=True, all_orders=False), "policies": ("FIFO",), "bound": 1 if not q else 0},
         {"scens": wcat.dag_scenarios(3 if q else 4, rotations=(0, 4), all_orders=False, min_n=2), "policies": ("FIFO", "JOBS"), "bound": 1, "cap": 3000},
     ]
+    # two scheduler processes sharing a token directory (fine-grained points, long preemptions, eager notifications)
+    two = [s for s in wcat.twoproc_scenarios() if s["family"] == "2proc:tok"]
+    plan.append({"scens": two, "policies": ("FIFO", "JOBS") + wcat.POL_PROC[:2] + wcat.POL_EAGER, "bound": 1, "demote": True, "cap": 60000})
     for pol in ("FIFO", "LIFO", "JOBS", "Q:1,2,job"):
         plan.append({"scens": wcat.jobkill_scenarios(), "policies": (pol,), "kills": {"restart_bound": 0}})
     if q:
